@@ -1,10 +1,160 @@
 import HvsrVerif.Drv.Loop
-/-! driver commands of C07 (stateless: one request line in, one answer line out) -/
+import HvsrVerif.Model.Readers
+/-! driver commands of C07 (stateless: one request line in, one answer line out)
+
+Rationals cross the protocol exactly as `num/den` (the harness sends `float.as_integer_ratio()`),
+integers in decimal, absent values as `none`.
+
+```
+readers.obspy  deg k (channel npts dt)*                      → ok ins iew ivt n dt deg | err KIND
+readers.saf    ver ndat fs vch nch ech rot deg nrows (a b c)*  → ok dt deg n ns* ew* vt* | err KIND
+readers.mshark ndat fs conv gain deg nrows (a b c)*            → ok dt deg n ns* ew* vt*   (rationals) | err KIND
+readers.peer   deg k (key npts dt nfound)*                     → ok ins iew ivt n dt deg | err KIND
+readers.broadcast nf (none|scalar|list m) (none|scalar|list m) → ok cnt (kwtag degtag)*     tag = none | s | index
+readers.dispatch b0 b1 b2 b3 b4 b5                             → ok index name | err KIND
+readers.degnorm d                                              → ok d'
+```
+`ins iew ivt` are positions in the trace/file list given on the request line.
+-/
 namespace HV.Drv
 open HV.Proto
 
+def ratOfTok (t : String) : Except String Rat :=
+  match t.splitOn "/" with
+  | [a] => match a.toInt? with
+    | some n => .ok (n : Rat)
+    | none => .error s!"rat:{t}"
+  | [a, b] => match a.toInt?, b.toNat? with
+    | some n, some d => if d = 0 then .error s!"rat:{t}" else .ok ((n : Rat) / (d : Rat))
+    | _, _ => .error s!"rat:{t}"
+  | _ => .error s!"rat:{t}"
+
+def ratP : P Rat := do
+  match ratOfTok (← tok) with
+  | .ok r => pure r
+  | .error e => throw e
+
+def optRatP : P (Option Rat) := do
+  let t ← tok
+  if t == "none" then pure none else
+  match ratOfTok t with
+  | .ok r => pure (some r)
+  | .error e => throw e
+
+def optNatP : P (Option Nat) := do
+  let t ← tok
+  if t == "none" then pure none else
+  match t.toNat? with
+  | some n => pure (some n)
+  | none => throw s!"nat:{t}"
+
+def fRat (r : Rat) : String := s!"{r.num}/{r.den}"
+
+def fErr (e : RdErr) : String := "err " ++ e.tag
+
+/-- position carried by a component whose samples are all equal to the position of its source -/
+def srcOf (c : Comp Nat) : String :=
+  match c.samples.head? with
+  | some i => toString i
+  | none => "-1"
+
+def fRouting (r : Except RdErr (Rec3 Nat)) : String :=
+  match r with
+  | .error e => fErr e
+  | .ok r => s!"ok {srcOf r.ns} {srcOf r.ew} {srcOf r.vt} {r.ns.samples.length} {fRat r.ns.dt} {fRat r.deg}"
+
+def obspyCmd : P String := do
+  let deg ← optRatP
+  let k ← nat
+  let mut trs : Array (String × Comp Nat) := #[]
+  for i in [0:k] do
+    let ch ← tok
+    let n ← nat
+    let dt ← ratP
+    trs := trs.push ((if ch == "-" then "" else ch), ⟨List.replicate n i, dt⟩)
+  pure (fRouting (readObspy trs.toList deg))
+
+def rowsP (n : Nat) : P (List (Int × Int × Int)) :=
+  rep n (do let a ← int; let b ← int; let c ← int; pure (a, b, c))
+
+def fCols {σ : Type} (f : σ → String) (r : Except RdErr (Rec3 σ)) : String :=
+  match r with
+  | .error e => fErr e
+  | .ok r =>
+    " ".intercalate (["ok", fRat r.ns.dt, fRat r.deg, toString r.ns.samples.length]
+      ++ r.ns.samples.map f ++ r.ew.samples.map f ++ r.vt.samples.map f)
+
+def safCmd : P String := do
+  let ver ← bool
+  let ndat ← optNatP
+  let fs ← optNatP
+  let v ← optNatP
+  let n ← optNatP
+  let e ← optNatP
+  let rot ← optNatP
+  let deg ← optRatP
+  let rows ← rowsP (← nat)
+  let h : SafHeader := { version := ver, ndat := ndat, fs := fs, vCh := v, nCh := n, eCh := e, northRot := rot }
+  pure (fCols (fun (x : Int) => toString x) (safAssemble h deg rows))
+
+def msharkCmd : P String := do
+  let ndat ← optNatP
+  let fs ← optNatP
+  let conv ← optNatP
+  let gain ← optNatP
+  let deg ← optRatP
+  let rows ← rowsP (← nat)
+  let h : MsharkHeader := { ndat := ndat, fs := fs, conv := conv, gain := gain }
+  pure (fCols fRat (minisharkAssemble h deg rows))
+
+def peerCmd : P String := do
+  let deg ← optRatP
+  let k ← nat
+  let mut fs : Array (PeerFile Nat) := #[]
+  for i in [0:k] do
+    let key ← tok
+    let npts ← optNatP
+    let dt ← optRatP
+    let found ← nat
+    fs := fs.push { key := if key == "none" then none else some key, npts := npts, dt := dt, samples := List.replicate found i }
+  pure (fRouting (peerAssemble fs.toList deg))
+
+def argSpecP : P (Arg String) := do
+  let t ← tok
+  if t == "none" then pure (.scalar "none")
+  else if t == "scalar" then pure (.scalar "s")
+  else if t == "list" then
+    let m ← nat
+    pure (.many ((List.range m).map toString))
+  else throw s!"argspec:{t}"
+
+def broadcastCmd : P String := do
+  let nf ← nat
+  let kw ← argSpecP
+  let dg ← argSpecP
+  let calls := broadcastArgs ((List.range nf).map FArg.one) kw dg
+  pure (" ".intercalate (["ok", toString calls.length] ++ calls.flatMap (fun c => [c.2.1, c.2.2])))
+
+def dispatchCmd : P String := do
+  let bs ← rep 6 bool
+  let results : List (Except RdErr Nat) := (List.range 6).zip bs |>.map (fun (i, b) => if b then .ok i else .error .value)
+  match readSingle results with
+  | .ok i => pure s!"ok {i} {dispatchOrder.getD i "?"}"
+  | .error e => pure (fErr e)
+
+def degnormCmd : P String := do
+  let d ← ratP
+  pure s!"ok {fRat (degNorm d)}"
+
 def opsC07 (op : String) : Option (P String) :=
   match op with
+  | "readers.obspy" => some obspyCmd
+  | "readers.saf" => some safCmd
+  | "readers.mshark" => some msharkCmd
+  | "readers.peer" => some peerCmd
+  | "readers.broadcast" => some broadcastCmd
+  | "readers.dispatch" => some dispatchCmd
+  | "readers.degnorm" => some degnormCmd
   | _ => none
 
 end HV.Drv
